@@ -238,6 +238,9 @@ def c13(run):
     run.trace("prim-fixed", Q(run, 2, 100))
     run.trace("prim-fixed-sweep", 1, seed_off=100)
     run.trace("prim-fixed-counts", Q(run, 1, 2), seed_off=200, chunk=40)
+    # message level: every fixed-width text field of all 170 types (short, full, over-long, over-long well-formed UTF-8 with a character
+    # lying across the end of the field): the rendering may not differ from the pinned one inside a fixed-width text field
+    run.trace("roundtrip-wild", Q(run, 6, 100), seed_off=400, small=True)
     # the same calls by 16 goroutines at once, each on its own buffer, pad bytes and sides mixed: judged on the results of the calls only
     run.parallel("prim-fixed", Q(run, 2, 20), goroutines=16, rounds=Q(run, 3, 6), seed_off=300, race_filter="RESULTS-ONLY", prop_clauses="C13", abort_violates=False)
     return run.finish(RULE_PRIMMODEL + RULE_PRIM + "Widths 0..5,10,16,200; pads 00,20,30,80,E9,FF and a random one; both sides; texts of length 0..N+2 over {pad,00,20,41,C3,A9,FF,30} and random bytes; lists of widths 1,3,8,10,16 with counts 0..64, around every multiple of 128 up to 2048, the multiples of 100 up to 2000, 4096, 8192 (thorough: up to 65535), written over stale spare capacity.")
